@@ -9,7 +9,7 @@ import glob, json, os, re, shutil, subprocess, sys, tempfile, time
 import concurrent.futures as cf
 HERE = os.path.dirname(os.path.abspath(__file__))
 VERIF = os.path.dirname(HERE)
-ALL = ['C01', 'C02', 'C03', 'C04', 'C07', 'C08', 'C09', 'C10', 'C11', 'C13', 'C14', 'C16']
+ALL = ['C01', 'C02', 'C03', 'C04', 'C05', 'C07', 'C08', 'C09', 'C10', 'C11', 'C13', 'C14', 'C16']
 
 
 def sh(cmd, cwd=None, timeout=3000, env=None):
